@@ -50,7 +50,7 @@ let () = register "route" (fun toks ->
           let r = { rq_method = bytes_of_hex meth; rq_mode = bytes_of_hex mode; rq_dest = bytes_of_hex dest;
                     rq_accept = accs; rq_referer = bytes_of_hex referer; rq_url_string = bytes_of_hex urlstring;
                     rq_path = bytes_of_hex path } in
-          (match entry_route (b01 clean) pats ings r with
+          (match entry_route ((int_of_string clean) land 1 = 1) ((int_of_string clean) lsr 1 = 1) pats ings r with
            | Forward -> print_endline ("F " ^ urlstring)
            | Redirect302 loc -> print_endline ("302 " ^ hex_of_bytes loc)
            | Unauthorized401 (loc, json) -> print_endline ("401 " ^ hex_of_bytes loc ^ " " ^ zb json))
